@@ -9,7 +9,8 @@ from oracle import DatasetView, LeanOracle, eval_adaptive
 NEEDS_DATASET = True
 TARGETS = ["RdVerif.Props.C07", "RdVerif.Props.C01Oracle", "RdVerif.Props.AllDatasets"]
 THEOREMS = ["RdVerif.C07.flow_add", "RdVerif.C07.flow_zero", "RdVerif.C07.flow_linear", "RdVerif.C07.flow_split",
-            "RdVerif.C07.companions",
+            "RdVerif.C07.companions", "RdVerif.C07.flow_split_perm", "RdVerif.C07.flow_smul", "RdVerif.C07.flow_of_zero",
+            "RdVerif.C07.flow_sub", "RdVerif.C07.flow_combination", "RdVerif.C07.flow_split_combination",
             "RdVerif.C01.C01_oracle_sound", "RdVerif.AllDatasets.flow_add", "RdVerif.AllDatasets.flow_zero",
             "RdVerif.AllDatasets.flow_linear", "RdVerif.AllDatasets.flow_split"]
 PARTIAL = {
